@@ -142,7 +142,17 @@ type BytesFuncAccessor interface {
 // the function provided. A reference MUST not be stored to the provided bytes. The underlying array will be wiped after
 // the function exits.
 func WithKeyFunc(key BytesFuncAccessor, action func([]byte) ([]byte, error)) ([]byte, error) {
-	return key.WithBytesFunc(action)
+	ret, err := key.WithBytesFunc(action)
+	if err != nil {
+		// The accessor can fail after the action has succeeded (e.g. when the key's memory cannot be
+		// re-protected), in which case it returns the action's result along with the error. That result
+		// may be plaintext key material, so don't leave it behind.
+		MemClr(ret)
+
+		return nil, err
+	}
+
+	return ret, nil
 }
 
 type Revokable interface {
